@@ -92,10 +92,17 @@ def _resolve(have: set[str]) -> set[str]:
         changed = False
         for f_ in list(have):
             if f_.startswith("O:"):
-                l1, l2 = f_[2:].split("||", 1)
-                for a, b in ((l1, l2), (l2, l1)):
-                    if a[0] in neg and (neg[a[0]] + a[1:]) in have and b not in have:
-                        have.add(b)
+                lits_ = f_[2:].split("||")
+                if any(l in have for l in lits_):
+                    continue
+                left = [l for l in lits_ if not (l[0] in neg and (neg[l[0]] + l[1:]) in have)]
+                if len(left) == 1 and left[0] not in have:
+                    have.add(left[0])
+                    changed = True
+                elif 1 < len(left) < len(lits_):
+                    sm = "O:" + "||".join(sorted(left))
+                    if sm not in have:
+                        have.add(sm)
                         changed = True
     return have
 
@@ -121,14 +128,20 @@ class _Guards(Problem):
 
     def join(self, a, b, at):
         common = a & b
-        da = [x for x in a - b if not x.startswith("O:")]
-        db = [x for x in b - a if not x.startswith("O:")]
-        if 0 < len(da) <= 3 and 0 < len(db) <= 3:
-            # what holds on one path or on the other (the two exits of a short-circuit test): kept as two-literal disjunctions
+        # what holds on one path or on the other (the exits of a short-circuit test, the arms of an `if`): kept as disjunctions
+        # of at most three literals; a side may contribute literals or disjunctions it already carries (the CFG joins the
+        # predecessors of a node pairwise, so a three-way join arrives in two steps)
+        ca = [[x] for x in a - b if not x.startswith("O:")] + [x[2:].split("||") for x in a - b if x.startswith("O:")]
+        cb = [[y] for y in b - a if not y.startswith("O:")] + [y[2:].split("||") for y in b - a if y.startswith("O:")]
+        if 0 < len(ca) <= 6 and 0 < len(cb) <= 6:
             common = set(common)
-            for x in da:
-                for y in db:
-                    common.add("O:" + "||".join(sorted([x, y])))
+            neg = {"T": "F", "F": "T"}
+            for x in ca:
+                for y in cb:
+                    cl = sorted(set(x) | set(y))
+                    if len(cl) > 3 or any(l[0] in neg and (neg[l[0]] + l[1:]) in cl for l in cl):
+                        continue          # too long, or a tautology
+                    common.add(cl[0] if len(cl) == 1 else "O:" + "||".join(cl))
             return frozenset(common)
         return common
 
@@ -352,6 +365,12 @@ def _group_alternatives(pattern: str, flags_ignorecase: bool, group: int) -> set
                     else:
                         return None
                 acc = {s + ch for s in acc for ch in chars}
+            elif name in ("MAX_REPEAT", "MIN_REPEAT") and av[0] in (0, 1) and av[1] == 1:
+                # `x?` / `x{1}`: with and (for ?) without the optional part
+                r = lits(av[2])
+                if r is None:
+                    return None
+                acc = {s + t for s in acc for t in (r | ({""} if av[0] == 0 else set()))}
             else:
                 return None
             if len(acc) > 256:
@@ -377,7 +396,7 @@ def _group_alternatives(pattern: str, flags_ignorecase: bool, group: int) -> set
                 if r is not None:
                     return r
         return None
-    g = find(tree)
+    g = tree if group == 0 else find(tree)          # group 0: the whole match
     if g is None:
         return None
     res = lits(g)
@@ -727,6 +746,8 @@ def _group_key_total(c: Ctx, f: Func, k: ast.AST, table_keys: set) -> str:
     e = k
     if isinstance(e, ast.Call) and isinstance(e.func, ast.Attribute) and e.func.attr in ("lower", "casefold") and not e.args:
         lowered, e = True, e.func.value
+    if isinstance(e, ast.Call) and isinstance(e.func, ast.Attribute) and e.func.attr == "group" and not e.args and not e.keywords:
+        e = ast.Call(func=e.func, args=[ast.Constant(value=0)], keywords=[])          # m.group() is m.group(0)
     if not (isinstance(e, ast.Call) and isinstance(e.func, ast.Attribute) and e.func.attr == "group" and len(e.args) == 1
             and isinstance(e.args[0], ast.Constant) and isinstance(e.args[0].value, int) and isinstance(e.func.value, ast.Name)):
         return ""
